@@ -169,6 +169,10 @@ impl StarkProof {
         z: BigUint,
         alpha: BigUint,
     ) -> anyhow::Result<stark_proof::PublicInput> {
+        // Every memory value must be a field element (the page computations below convert them).
+        for m in &public_input.public_memory {
+            Felt::from_hex(&m.value).map_err(|_| anyhow::anyhow!("Invalid memory value"))?;
+        }
         let continuous_page_headers =
             Self::continuous_page_headers(&public_input.public_memory, z, alpha);
         let main_page = Self::main_page(&public_input.public_memory)?;
